@@ -318,7 +318,8 @@ def run_kani_jobs(ctx, harnesses):
         r = results[h]
         known = json.load(open(os.path.join(HERE, "known_findings.json")))["findings"]
         fresh = [f for f in r["failures"] if not known_match(ctx.prop, h, f, None, known) and not (re.match(r"C\d\d\.", f["obligation"]) and not f["obligation"].startswith(ctx.prop + "."))]
-        if r["status"] == "violation" and fresh and not os.environ.get("VERIF_NO_PLAYBACK"):
+        n_pb = sum(1 for x in results.values() if x.get("playback") is not None)
+        if r["status"] == "violation" and fresh and n_pb < int(os.environ.get("VERIF_MAX_PLAYBACK", "3")) and not os.environ.get("VERIF_NO_PLAYBACK"):
             crate, cfgs = crates[variant]
             td = os.path.join(ctx.work, variant, "td", h)
             try:
@@ -524,9 +525,9 @@ def main():
         pb = [t for t in (r.get("playback") or []) if t["kind"] != "cover" and (f["obligation"] in t["desc"] or f["kind"] == "memory")]
         spec = sel.get(h) or vsel.get(h) or {}
         native = None
-        if pb and spec.get("replay"):
+        if spec.get("replay"):
             try:
-                native = spec["replay"](pb[0]["vals"], HERE)
+                native = spec["replay"](pb[0]["vals"] if pb else None, HERE)
             except Exception as e:  # noqa: BLE001
                 native = dict(error=str(e))
         elif spec.get("replay_static"):
